@@ -10,6 +10,7 @@ import (
 
 	"verif/harness/adjdrv"
 	"verif/harness/ocidrv"
+	"verif/harness/relaydrv"
 )
 
 func fail(err error) {
@@ -68,6 +69,27 @@ func main() {
 		if err := ocidrv.Generate(*out, *n, *seed); err != nil {
 			fail(err)
 		}
+	case "relay":
+		fs := flag.NewFlagSet(mod, flag.ExitOnError)
+		o := relaydrv.Options{}
+		fs.StringVar(&o.Out, "out", "", "trace file")
+		fs.Int64Var(&o.Seed, "seed", 1, "seed")
+		fs.IntVar(&o.Runs, "runs", 20, "number of recorded runs")
+		fs.IntVar(&o.Plugins, "plugins", 4, "plugins per run")
+		fs.IntVar(&o.Callers, "callers", 3, "runtime goroutines per run")
+		fs.IntVar(&o.Requests, "requests", 12, "requests per goroutine")
+		fs.BoolVar(&o.Updates, "updates", false, "unsolicited updates")
+		fs.BoolVar(&o.Leave, "leave", false, "plugins leave during the run")
+		fs.BoolVar(&o.Vetoes, "vetoes", false, "handlers sometimes return errors")
+		fs.BoolVar(&o.NoBlocks, "noblocks", false, "self-test: omit the sync blocks")
+		fs.BoolVar(&o.AllMasks, "allmasks", false, "enumerate masks")
+		fs.IntVar(&o.MaskBase, "maskbase", 0, "first mask number with -allmasks")
+		fs.Parse(args)
+		n, err := relaydrv.Run(o)
+		if err != nil {
+			fail(err)
+		}
+		fmt.Printf("{\"events\":%d}\n", n)
 	default:
 		fail(fmt.Errorf("unknown module %q", mod))
 	}
